@@ -42,7 +42,8 @@ BOUNDS = {
                   parameters="symbolic 1 < p <= 40, q > 0, shift > 0, backshift > 0, eps > 0; x in [0,1]",
                   equivariance="mirror x, mirror y, swap x<->y on 2x2, 3x2, 2x3"),
     "thorough": dict(strings="as quick", vectors="as quick",
-                     forward_meshes=["2x2", "3x2", "2x3", "3x3", "2x2x2", "3x2x2"], directions="all 4 (2D) / 6 (3D)",
+                     forward_meshes=["2x2", "3x2", "2x3", "3x3", "4x3", "3x4", "2x2x2", "3x2x2", "2x3x2", "2x2x3"],
+                     directions="all 4 (2D) / 6 (3D)",
                      nsampling=[3, 5, 9], parameters="as quick",
                      equivariance="mirrors of every axis, swaps x<->y (2D) and x<->y, x<->z, y<->z (3D)"),
 }
@@ -531,6 +532,7 @@ def sc_forward(V, P, cfg):
     m.response()
     y = m.sig_out[0].state
     obs = dict(y=y)
+    _sat_hints(V, m, xin, eps)
     yr, sr, base, roots = ref_overhang(xin, n, dim, axis, sign, nsamp or (3 if dim == 2 else 5), p, q, shift, backshift, eps)
     K.true("len(y)", len(y) == N, "shape")
     root0 = _sqrt(eps)
@@ -550,6 +552,41 @@ def sc_forward(V, P, cfg):
                     P.obls.remove(o)          # not closed with the two instances: decide it with the engine's selection
                     K.le(lab, y[e], rhs, kd)
     return obs
+
+
+def _sat_hints(V, m, x, eps):
+    """Acceleration of the satisfiability checks of the path (vacuity guard, branch feasibility), which are erratic
+    for >= 3 layers (nested square roots; measured 0.1 s .. > 60 s for the same query): a model of
+    `constraints + hints` is a model of `constraints`, so the context first tries the query together with the hints
+    x_e == smax_e, eps == 1/100 (every square root becomes rational) and falls back to the plain query otherwise.
+    Nothing is assumed: `sat` is only ever answered with a model of the original constraints, every other answer
+    comes from the unmodified query."""
+    if not V.symbolic:
+        return
+    import z3
+    c = V.c
+    hints = []
+    for e in range(len(x)):
+        h = (x[e] == m.smax[e])
+        if isinstance(h, SB):
+            hints.append(h.t)
+    h = (eps == R.of("1/100"))
+    if isinstance(h, SB):
+        hints.append(h.t)
+    c._c14_hints = hints
+    if getattr(c, "_c14_wrapped", False):
+        return
+    c._c14_wrapped = True
+    orig = type(c).check
+
+    def check(extra=(), timeout_ms=None):
+        hs = getattr(c, "_c14_hints", None)
+        if hs:
+            r, sv = orig(c, list(extra) + list(hs), timeout_ms)
+            if r == z3.sat:
+                return r, sv
+        return orig(c, extra, timeout_ms)
+    c.check = check
 
 
 class _OnlyAxioms:
@@ -609,6 +646,7 @@ def sc_equivariance(V, P, cfg):
     m1 = _make(V, mesh, x, _dirvec(axis, sign, dim), nsamp, prm)
     m1.response()
     y1 = m1.sig_out[0].state
+    _sat_hints(V, m1, x, prm[4])
     op = cfg["op"]
     if op[0] == "mirror":
         a = op[1]
@@ -663,8 +701,8 @@ def items(tier):
         out.append(dict(kind="string-enum", id="string-enum-%d" % lo, range=[lo, min(nstr, lo + step)], dim2=(lo == 0)))
     out.append(dict(kind="vector", id="vector-symbolic-magnitude"))
     out.append(dict(kind="vector-enum", id="vector-enum"))
-    meshes2 = [(2, 2, 0), (3, 2, 0), (2, 3, 0)] + ([] if q else [(3, 3, 0)])
-    meshes3 = [] if q else [(2, 2, 2), (3, 2, 2)]
+    meshes2 = [(2, 2, 0), (3, 2, 0), (2, 3, 0)] + ([] if q else [(3, 3, 0), (4, 3, 0), (3, 4, 0)])
+    meshes3 = [] if q else [(2, 2, 2), (3, 2, 2), (2, 3, 2), (2, 2, 3)]
     for mesh in meshes2:
         for axis in (0, 1):
             for sign in (1, -1):
